@@ -178,9 +178,38 @@ def he_repeat_specs(ctx):
     return specs
 
 
+def start_point_is_a_snapshot(ctx, rep):
+    """`result.x0` is the start point the problem was CONSTRUCTED with: a caller that re-uses its start vector for something else between
+    construction and the end of the run (a multi-start driver filling one buffer) must not change what the run reports."""
+    from pybads import BADS
+    import numpy as np
+    rng = ctx.sub_rng("c19x0")
+    n = 0
+    for shape in ("1d", "2d", "1d", "list"):
+        D = rng.choice([1, 2, 3])
+        start = [round(rng.uniform(-1.5, 2.5), 3) for _ in range(D)]
+        x0 = np.array(start) if shape == "1d" else np.array([start]) if shape == "2d" else list(start)
+        calls = []
+        def f(x):
+            calls.append([float(v) for v in np.ravel(x)])
+            return float(np.sum(np.asarray(x) ** 2))
+        b = BADS(f, x0, np.full(D, -4.0), np.full(D, 6.0), np.full(D, -2.0), np.full(D, 3.0), options={"display": "off", "max_fun_evals": D + 14, "random_seed": 3})
+        if shape != "list":
+            x0[...] = 5.5                      # the caller's buffer is re-used after construction
+        res = b.optimize()
+        n += 1
+        got = [float(v) for v in np.ravel(res["x0"])]
+        case = {"kind": "x0_snapshot", "D": D, "shape": shape, "start": start}
+        if got != start:
+            rep.violation("x0_is_the_start", "bads.py:__init__ / optimize_result.py", f"result.x0 = {got} for a problem constructed with the start point {start} "
+                          f"(given as a {shape} array that the caller overwrote after construction; first evaluation at {calls[0] if calls else None})", case)
+    return n
+
+
 def run(ctx):
     rep = Report()
     cstats = container_level(ctx, rep)
+    cstats["x0_snapshots"] = start_point_is_a_snapshot(ctx, rep)
     runlevel.with_extra(ctx, "c19he", lambda: he_repeat_specs(ctx))
     runlevel.with_extra(ctx, "c19sto", lambda: stobads_specs(ctx))
     runlevel.with_extra(ctx, "c19seed", lambda: edge_seed_specs(ctx))
